@@ -364,8 +364,17 @@ func checkWSLimit(c *Ctx, e *abs.Engine, fn *ssa.Function) {
 			if st, ok := in.(*ssa.Store); ok && core.Path(st.Addr) == "c.readLength" && core.Path(st.Val) == "0" {
 				reset = in
 			}
-			if call, ok := in.(*ssa.Call); ok && call.Call.StaticCallee() == fn && adv == nil {
-				adv = in
+			if call, ok := in.(*ssa.Call); ok && adv == nil {
+				// the frame parser itself, or the helper of NextReader that loops over it
+				if cal := call.Call.StaticCallee(); cal == fn {
+					adv = in
+				} else if cal != nil {
+					for _, h := range advCallHosts(nr, fn)[1:] {
+						if h == cal {
+							adv = in
+						}
+					}
+				}
 			}
 		})
 		R.Check(reset != nil && adv != nil && core.Precedes(reset, adv), "C14.limit", "websocket|NextReader|accumulator-reset", P.Pos(nr.Pos()),
@@ -416,6 +425,30 @@ func checkWSLen64(c *Ctx, fn *ssa.Function) {
 	// (a dominator-based rule cannot see a test that sits on only one arm of the length switch).
 }
 
+// advCallHosts: fn itself and its direct same-package callees - the places where fn's frame loop may live when it was
+// extracted into a helper (nextDataFrame).
+func advCallHosts(fn, adv *ssa.Function) []*ssa.Function {
+	out := []*ssa.Function{fn}
+	core.EachInstr(fn, func(in ssa.Instruction) {
+		if call, ok := in.(*ssa.Call); ok {
+			f := call.Call.StaticCallee()
+			if f == nil || f == adv || !core.InModule(f) || core.ShortPkg(f) != core.ShortPkg(fn) || f.Parent() != nil || len(f.Blocks) == 0 {
+				return
+			}
+			has := false
+			core.EachInstr(f, func(x ssa.Instruction) {
+				if c2, ok := x.(*ssa.Call); ok && c2.Call.StaticCallee() == adv {
+					has = true
+				}
+			})
+			if has {
+				out = append(out, f)
+			}
+		}
+	})
+	return out
+}
+
 func checkWSClose1002(c *Ctx, adv *ssa.Function) {
 	P, R := c.P, c.R
 	hp := P.Func("websocket", "(*Conn).handleProtocolError")
@@ -437,7 +470,8 @@ func checkWSClose1002(c *Ctx, adv *ssa.Function) {
 		// and returns a non-nil error
 		okErr := true
 		for _, r := range core.Returns(hp) {
-			if !definitelyNonNilError(r.Results[0]) {
+			ei := core.ErrResultIndex(hp) // (error), or (noFrame, error) when the helper also hands back the frame type
+			if ei < 0 || !definitelyNonNilError(core.ReturnOperand(r, ei)) {
 				okErr = false
 			}
 		}
@@ -449,56 +483,61 @@ func checkWSClose1002(c *Ctx, adv *ssa.Function) {
 			continue
 		}
 		n := 0
-		core.EachInstr(fn, func(in ssa.Instruction) {
-			call, ok := in.(*ssa.Call)
-			if !ok || call.Call.StaticCallee() != adv {
-				return
-			}
-			n++
-			E, _ := errValueOf(call)
-			latched := false
-			if E != nil {
-				core.EachInstr(fn, func(in2 ssa.Instruction) {
-					st, ok := in2.(*ssa.Store)
-					if !ok || !strings.HasSuffix(core.Path(st.Addr), ".readErr") {
-						return
-					}
-					// the stored value derives from E (possibly through hideTempErr) under E != nil
-					v := st.Val
-					if cl, isCall := v.(*ssa.Call); isCall && len(cl.Call.Args) == 1 {
-						v = cl.Call.Args[0]
-					}
-					if v == E {
-						for _, a := range core.GuardAtoms(st.Block()) {
-							if a.LV == E && a.Op == "!=" {
-								latched = true
+		for _, host := range advCallHosts(fn, adv) {
+			fn := host
+			core.EachInstr(fn, func(in ssa.Instruction) {
+				call, ok := in.(*ssa.Call)
+				if !ok || call.Call.StaticCallee() != adv {
+					return
+				}
+				n++
+				E, _ := errValueOf(call)
+				latched := false
+				if E != nil {
+					core.EachInstr(fn, func(in2 ssa.Instruction) {
+						st, ok := in2.(*ssa.Store)
+						if !ok || !strings.HasSuffix(core.Path(st.Addr), ".readErr") {
+							return
+						}
+						// the stored value derives from E (possibly through hideTempErr) under E != nil
+						v := st.Val
+						if cl, isCall := v.(*ssa.Call); isCall && len(cl.Call.Args) == 1 {
+							v = cl.Call.Args[0]
+						}
+						if v == E {
+							for _, a := range core.GuardAtoms(st.Block()) {
+								if a.LV == E && a.Op == "!=" {
+									latched = true
+								}
 							}
 						}
-					}
-				})
-			}
-			R.Check(latched, "C14.close1002", fmt.Sprintf("websocket|%s|error-latched#%d", name, n), P.InstrPos(call),
-				"an advanceFrame error is stored in readErr (reading fails permanently)", "an advanceFrame error is not latched in readErr: a later read would continue after a protocol violation", nil)
-		})
+					})
+				}
+				R.Check(latched, "C14.close1002", fmt.Sprintf("websocket|%s|error-latched#%d", name, n), P.InstrPos(call),
+					"an advanceFrame error is stored in readErr (reading fails permanently)", "an advanceFrame error is not latched in readErr: a later read would continue after a protocol violation", nil)
+			})
+		}
 	}
 	if nr := P.Func("websocket", "(*Conn).NextReader"); nr != nil {
 		ok := false
-		core.EachInstr(nr, func(in ssa.Instruction) {
-			if call, isCall := in.(*ssa.Call); isCall && call.Call.StaticCallee() == adv {
-				for _, a := range core.GuardAtoms(call.Block()) {
-					if a.L == "c.readErr" && a.Op == "==" && a.R == "nil" {
-						ok = true
+		for _, host := range advCallHosts(nr, adv) {
+			core.EachInstr(host, func(in ssa.Instruction) {
+				if call, isCall := in.(*ssa.Call); isCall && call.Call.StaticCallee() == adv {
+					for _, a := range core.GuardAtoms(call.Block()) {
+						if strings.HasSuffix(a.L, ".readErr") && a.Op == "==" && a.R == "nil" {
+							ok = true
+						}
 					}
 				}
-			}
-		})
+			})
+		}
 		R.Check(ok, "C14.close1002", "websocket|NextReader|stops-after-error", P.Pos(nr.Pos()),
 			"no frame is read once readErr is set", "NextReader reads frames although a previous error is latched", nil)
 	}
 	// C14.cut: the transport's io.EOF may reach the caller as io.EOF (= "message complete") only when nothing of the frame
 	// is outstanding AND the frame was the final one of its message; in every other case it becomes the unexpected-EOF
 	// error. Decided on the edges that by-pass the conversion.
-	if rd := P.Func("websocket", "(*messageReader).Read"); rd != nil {
+	if rd := wsPayloadReader(P); rd != nil {
 		var conv *ssa.Store
 		core.EachInstr(rd, func(in ssa.Instruction) {
 			st, isSt := in.(*ssa.Store)
@@ -576,7 +615,43 @@ func checkWSCtlPayload(c *Ctx) {
 	// the close-code table
 	want := map[int64]bool{1000: true, 1001: true, 1002: true, 1003: true, 1005: false, 1006: false, 1007: true, 1008: true, 1009: true, 1010: true, 1011: true, 1012: true, 1013: true, 1015: false}
 	g := P.Global("websocket", "validReceivedCloseCodes")
-	if R.Anchor(g != nil, "C14.ctlpayload", "websocket.validReceivedCloseCodes") {
+	evaluated := false
+	if pf := P.Func("websocket", "isValidReceivedCloseCode"); g == nil && pf != nil && len(pf.Params) == 1 {
+		// no table variable: the predicate is code (a switch). It is evaluated on constants - every code of the IANA
+		// table, their neighbours, and the edges of the private range - and must agree with the table.
+		e := abs.NewEngine(P)
+		var diffs []string
+		codes := []int64{0, 1, 999, 1016, 1017, 1100, 2000, 2999, 3000, 3001, 3999, 4000, 4998, 4999, 5000, 5001, 65535}
+		for k := int64(1000); k <= 1015; k++ {
+			codes = append(codes, k)
+		}
+		decided := 0
+		for _, code := range codes {
+			code := code
+			expect := want[code] || (code >= 3000 && code <= 4999)
+			res := e.Run(pf, func(p *abs.Path) []abs.Value { return []abs.Value{abs.NewConst(code, 64, true)} })
+			if len(res) != 1 || res[0].Path.Abort != "" || len(res[0].Ret) != 1 {
+				diffs = append(diffs, fmt.Sprintf("%d: undecided", code))
+				continue
+			}
+			b, isB := res[0].Ret[0].(*abs.Bool)
+			if !isB || !b.Known {
+				diffs = append(diffs, fmt.Sprintf("%d: undecided", code))
+				continue
+			}
+			decided++
+			if b.Val != expect {
+				diffs = append(diffs, fmt.Sprintf("%d: the predicate says %v, RFC/IANA says %v", code, b.Val, expect))
+			}
+		}
+		sort.Strings(diffs)
+		evaluated = true
+		R.Check(len(diffs) == 0 && decided == len(codes), "C14.ctlpayload", "websocket|validReceivedCloseCodes|table", P.Pos(pf.Pos()),
+			fmt.Sprintf("the close-code predicate agrees with the RFC 6455 / IANA table on %d probe codes (all table entries, their neighbours, the edges of 3000..4999)", len(codes)),
+			"the close-code predicate differs: "+strings.Join(diffs, "; "), nil)
+		R.OK("C14.ctlpayload", "websocket|isValidReceivedCloseCode|private-range", P.Pos(pf.Pos()), "codes 3000..4999 are receivable (evaluated at 2999, 3000, 4999, 5000)")
+	}
+	if !evaluated && R.Anchor(g != nil, "C14.ctlpayload", "websocket.validReceivedCloseCodes") {
 		got := map[int64]bool{}
 		init := P.SSAPkgs["websocket"].Func("init")
 		core.EachInstr(init, func(in ssa.Instruction) {
@@ -636,7 +711,10 @@ func checkWSCtlPayload(c *Ctx) {
 			predFns = append(predFns, f)
 		}
 	}
-	if R.Anchor(len(predFns) > 0, "C14.ctlpayload", "websocket.isValidReceivedCloseCode") {
+	if pf := P.Func("websocket", "isValidReceivedCloseCode"); evaluated && pf != nil {
+		predFns = append(predFns, pf)
+	}
+	if !evaluated && R.Anchor(len(predFns) > 0, "C14.ctlpayload", "websocket.isValidReceivedCloseCode") {
 		for _, fn := range predFns {
 			lo, hi := int64(-1), int64(-1)
 			var key ssa.Value
@@ -704,9 +782,24 @@ func checkWSCtlPayload(c *Ctx) {
 			}
 			return false
 		}
+		// the close-frame handling may live in a helper of the frame parser (processCloseFrame)
+		advScan := []*ssa.Function{adv}
 		core.EachInstr(adv, func(in ssa.Instruction) {
+			if call, ok := in.(*ssa.Call); ok {
+				if f := call.Call.StaticCallee(); f != nil && core.InModule(f) && core.ShortPkg(f) == "websocket" && f.Parent() == nil && len(f.Blocks) > 0 && !isPred(f) {
+					advScan = append(advScan, f)
+				}
+			}
+		})
+		eachAdvInstr := func(visit func(fn *ssa.Function, in ssa.Instruction)) {
+			for _, f := range advScan {
+				f := f
+				core.EachInstr(f, func(in ssa.Instruction) { visit(f, in) })
+			}
+		}
+		eachAdvInstr(func(host *ssa.Function, in ssa.Instruction) {
 			c2, ok := in.(*ssa.Call)
-			if !ok || c2.Call.StaticCallee() == nil || core.FnName(c2.Call.StaticCallee()) != "handleProtocolError" || isPred(adv) == false {
+			if !ok || c2.Call.StaticCallee() == nil || core.FnName(c2.Call.StaticCallee()) != "handleProtocolError" || isPred(host) == false {
 				return
 			}
 			for _, g := range core.Guards(c2.Block()) {
@@ -723,7 +816,7 @@ func checkWSCtlPayload(c *Ctx) {
 				}
 			}
 		})
-		core.EachInstr(adv, func(in ssa.Instruction) {
+		eachAdvInstr(func(_ *ssa.Function, in ssa.Instruction) {
 			call, ok := in.(*ssa.Call)
 			if !ok || call.Call.StaticCallee() == nil {
 				return
